@@ -131,7 +131,7 @@ def make_params(cfg):
 
 
 def cfg_key(cfg):
-    return "|".join(str(cfg.get(k)) for k in ("method", "solver", "fmode", "ex", "act", "engine"))
+    return "|".join(str(cfg.get(k)) for k in ("method", "solver", "fmode", "ex", "act", "engine")) + (f"|acts={cfg['acts']}" if cfg.get("acts") else "")
 
 
 def tolerance(cfg):
@@ -146,7 +146,12 @@ def _sp_call(mols, cfg, pad, pat, uninit="zero"):
     buf = io.StringIO()
     try:
         with contextlib.redirect_stdout(buf), B.uninitialised(uninit), Horizon(HORIZON) as hz:
-            obs = B.single_point(mols, make_params(cfg), pad, pat, active_state=cfg.get("act") or None)
+            act = cfg.get("act") or None
+            if cfg.get("acts"):
+                import torch
+
+                act = torch.as_tensor(cfg["acts"], dtype=torch.int64)
+            obs = B.single_point(mols, make_params(cfg), pad, pat, active_state=act)
         return obs, "ok", hz.max_count()
     except IterationHorizon as e:
         return None, "horizon", str(e)
@@ -168,6 +173,15 @@ def _md_call(mols, specs, cfg, pad, pat):
 
 def ref_key(cfg, spec):
     return cfg_key(cfg) + "|" + spec[0] + "|" + str(spec[1])
+
+
+def row_cfg(cfg, k):
+    """configuration of row k alone: a per-molecule active-state list becomes that molecule's own active state"""
+    if cfg.get("acts"):
+        c = {x: y for x, y in cfg.items() if x != "acts"}
+        c["act"] = cfg["acts"][k]
+        return c
+    return cfg
 
 
 def compute_ref(item):
@@ -354,7 +368,7 @@ def run_case(case, refs=None):
         return out
     out["hz"] = msg
     for k, s in enumerate(specs):
-        ref = refs[ref_key(cfg, s)]
+        ref = refs[ref_key(row_cfg(cfg, k), s)]
         if ref["status"] != "ok":
             if ref["status"] == "rejected":
                 continue
@@ -374,10 +388,10 @@ def run_case(case, refs=None):
 def recheck(case):
     """fresh process, references recomputed there (singles), then the batch again"""
     refs = {}
-    for s in case["mols"]:
-        k = ref_key(case["cfg"], s)
+    for i, s in enumerate(case["mols"]):
+        k = ref_key(row_cfg(case["cfg"], i), s)
         if k not in refs:
-            refs[k] = compute_ref((case["cfg"], s, case["seed"]))
+            refs[k] = compute_ref((row_cfg(case["cfg"], i), s, case["seed"]))
     return run_case(case, refs)
 
 
@@ -479,6 +493,11 @@ def lattice(tier, seed):
                     if not quick or len(cb) == 2:
                         cases.append(_case("cis", specs, w, pat, _cfg("AM1", ex=ex, act=act), seed))
                 cases.append(_case("cis", specs, w, pat, _cfg("PM6_SP", ex="cis", act=0), seed))
+            # every batch member on its OWN excited state (as surface hopping does), analytical excited gradient
+            if len(cb) in (2, 3) and name in ("H2CO", "H2O", "C2H2"):
+                for acts in ([2, 1], [1, 3]) if len(cb) == 2 else ([2, 1, 3], [1, 1, 2]):
+                    if not quick or cb in ([0, 1], [1, 2], [0, 1, 2]):
+                        cases.append(_case("cis", specs, 0, "zero", _cfg("AM1", fmode="analytical", ex="cis", acts=acts), seed))
             if len(cb) == 2 or not quick:
                 for ex in ("cis", "rpa"):  # adversarial content of never-written memory
                     c = _case("cis", specs, 0, "zero", _cfg("AM1", ex=ex, act=0), seed)
@@ -578,8 +597,9 @@ def run(chk, tier, seed):
     # references: every (configuration, molecule, distortion) alone
     need = {}
     for c in cases:
-        for s in c["mols"]:
-            need.setdefault(ref_key(c["cfg"], s), (c["cfg"], [s[0], s[1], None], seed))
+        for i, s in enumerate(c["mols"]):
+            rc = row_cfg(c["cfg"], i)
+            need.setdefault(ref_key(rc, s), (rc, [s[0], s[1], None], seed))
     keys = sorted(need)
     res = pmap(compute_ref, [need[k] for k in keys], chunk=4, timeout=3600, progress="C05 references")
     hz_max = 0
